@@ -15,7 +15,9 @@ EXPLANATION = ('R-PAIRCALL: every method that appends a section (subpath_array.a
                'element_center and spine. R-UNIT: the OASIS PATH half-width is 0.5 x interpolated width x width_scale, the GDSII '
                'WIDTH the full width. R-EXHAUST: SubPathType in eval/gradient, InterpolationType in interp, EndType in the writers. '
                'R-CONSUME: operand consumption of RobustPath::commands. Outline accuracy and intersection convergence are not decided.')
-ADVISORY = [('R-CLONE', r'^RobustPath query prologue'), ('R-SHAPE', r'^RobustPath query prologue/clamp'), ('R-CLONE', r'^RobustPath samplers/')]
+# (the four *_intersection searches are textual siblings too: one of them tidied on its own - benign X4-3: step update moved into a
+# local lambda - differs in spelling only; what each evaluates is decided by R-SHAPE `own side`, the spelling comparison is evidence)
+ADVISORY = [('R-CLONE', r'^RobustPath query prologue'), ('R-SHAPE', r'^RobustPath query prologue/clamp'), ('R-CLONE', r'^RobustPath samplers/'), ('R-CLONE', r'^RobustPath intersections/')]
 ASSUMPTIONS = ['SubPath::eval/gradient numerics are not analysed', 'RobustPath transforms are covered by C10']
 XREF_FILES = ['src/robustpath.cpp']
 
@@ -752,6 +754,8 @@ def run(ctx):
     ctx.require('R-CONSUME arms', n, 10)
     ctx.extra['command_table'] = table
     ctx.attempt(check_dimensions, ctx, db)
+    from . import C03   # a simple robust path saved as GDSII PATH records: well-formed records, XY chunks that continue where the previous one ended
+    ctx.attempt(C03.check_writers, ctx, db, only={'gdstk::RobustPath::to_gds'})
     from . import C02   # a simple robust path saved as an OASIS PATH: the extension scheme announces exactly the extensions that follow
     ctx.attempt(C02.check_path_extensions, ctx, db)
 
